@@ -502,8 +502,20 @@ def case_oracle(case, res: ShardResult | None = None):
         recipes = _recipes()
         which = case.get("mappers") or sorted(recipes)
         deferred = None
-        for name in which:
-            f, stats = check_mapper(name, recipes[name], g, info)
+        # graphs whose only duplicates are equal function definitions traced
+        # separately are also walked in deduplicated form, where those
+        # definitions are one shared object (the once-per-node check applies)
+        variants = [g]
+        if not info.get("dup"):
+            try:
+                import pytato as pt
+                gd = pt.transform.deduplicate(g)
+                if gd is not g:
+                    variants.append(gd)
+            except Exception:  # noqa: BLE001
+                pass
+        for name, gv in [(nm, v) for v in variants for nm in which]:
+            f, stats = check_mapper(name, recipes[name], gv, info)
             if res is not None:
                 res.count("mapper:" + name)
                 if stats.get("collision_reported"):
